@@ -25,7 +25,7 @@ ASSUME = [
     "whitespace-padded lexical forms (collapsed by the schema's whiteSpace facet) are outside the R statement",
     "CPython refuses int() of more than 4300 digits (C11_R_digit_limit); R is stated up to that length",
     "attributes whose schema type carries a pattern the model does not express (content types, extensions, chart percent patterns) are 'not judged' for the side that would need it (listed in the evidence)",
-    "float-valued classes (angles, percentages, font scale, line spacing, double) have no canonical descriptor: W/Rej/R/RT for them are decided by bit-exact correspondence + oracle on threshold grids, not by a universally quantified theorem (partial)",
+    "float-valued classes have no canonical descriptor; their WRITE side (what is written lies in the schema range, for all python values) is proved directly on the regenerated Gallina for the two angle classes and the four percentage classes (C11_W_Angle .. C11_W_TextFontScalePercent, using the monotonicity lemmas of proofs/PyFloat_proofs.v); their read side, round trip and rejection class, and XsdDouble/ST_AxisUnit/ST_TextSpacingPoint/ST_UniversalMeasure entirely, are decided by bit-exact correspondence + oracle on threshold grids (partial)",
 ]
 
 
